@@ -50,13 +50,17 @@ Definition model_agrees (c : case) : bool :=
 
 (* ------------------------------------------------------------------ the property's own book *)
 Record entry := mk_entry {
-  e_name : string; e_before : string; e_after : string; e_hid : N; e_builtin : bool }.
+  e_name : string; e_before : string; e_after : string;
+  e_hid : N;        (* the call whose handler must run: the Register, or the last Replace *)
+  e_reg : N;        (* the call that registered it *)
+  e_builtin : bool }.
 Record rstate := mk_rstate {
   r_live : list entry;     (* registered and not removed, in registration order *)
   r_used : list string;    (* every name ever registered *)
-  r_dom : bool             (* the history so far is in the property's domain (DESIGN §8 C17 Domain) *)
+  r_dom : bool;            (* the history so far is in the property's domain (DESIGN §8 C17 Domain) *)
+  r_user : bool            (* a call that is not part of the default registration has been seen *)
 }.
-Definition r0 := mk_rstate [] [] true.
+Definition r0 := mk_rstate [] [] true false.
 
 Definition named (n : string) (e : entry) : bool := String.eqb (e_name e) n.
 Definition find_live (l : list entry) (n : string) : option entry := find (named n) l.
@@ -64,24 +68,33 @@ Definition is_live (l : list entry) (n : string) : bool := existsb (named n) l.
 Definition unconstrained (s : step) : bool :=
   is_none (st_before s) && is_none (st_after s) && st_matched s.
 
+(* the default registration is a prefix of plain Register calls *)
+Definition builtin_ok (r : rstate) (s : step) : bool :=
+  negb (st_builtin s) ||
+  (negb (r_user r) && match st_kind s with KRegister => true | _ => false end
+   && is_none (st_before s) && is_none (st_after s)).
+
 Definition ref_apply (r : rstate) (i : N) (s : step) : rstate :=
+  let dom := r_dom r && builtin_ok r s in
+  let user := r_user r || negb (st_builtin s) in
   match st_kind s with
   | KRegister =>
-    if negb (st_matched s) then r   (* guarded out by Match: never part of the pipeline, by design *)
+    if negb (st_matched s) then mk_rstate (r_live r) (r_used r) dom user
+      (* guarded out by Match: never part of the pipeline, by design *)
     else
       let bad := is_none (st_name s) || is_star (st_name s) || mem (r_used r) (st_name s) in
-      mk_rstate (r_live r ++ [mk_entry (st_name s) (st_before s) (st_after s) i (st_builtin s)])
-                (st_name s :: r_used r) (r_dom r && negb bad)
+      mk_rstate (r_live r ++ [mk_entry (st_name s) (st_before s) (st_after s) i i (st_builtin s)])
+                (st_name s :: r_used r) (dom && negb bad) user
   | KReplace =>
     if is_live (r_live r) (st_name s) && unconstrained s
     then mk_rstate (map (fun e => if named (st_name s) e
-                                  then mk_entry (e_name e) (e_before e) (e_after e) i (e_builtin e) else e)
-                        (r_live r)) (r_used r) (r_dom r)
-    else mk_rstate (r_live r) (r_used r) false
+                                  then mk_entry (e_name e) (e_before e) (e_after e) i (e_reg e) (e_builtin e) else e)
+                        (r_live r)) (r_used r) dom user
+    else mk_rstate (r_live r) (r_used r) false user
   | KRemove =>
     if is_live (r_live r) (st_name s) && unconstrained s
-    then mk_rstate (filter (fun e => negb (named (st_name s) e)) (r_live r)) (r_used r) (r_dom r)
-    else mk_rstate (r_live r) (r_used r) false
+    then mk_rstate (filter (fun e => negb (named (st_name s) e)) (r_live r)) (r_used r) dom user
+    else mk_rstate (r_live r) (r_used r) false user
   end.
 
 (* position of a name in the firing order *)
@@ -130,33 +143,42 @@ Definition spec_replace (prev : option obs) (s : step) (f : list (string * N)) :
   | _, _ => true
   end.
 
-Definition spec_ok (r : rstate) (prev : option obs) (s : step) (f : list (string * N)) : bool :=
-  spec_once (r_live r) f && spec_handler (r_live r) f && spec_sides (r_live r) f
-  && spec_builtin (r_live r) f && spec_replace prev s f.
+(* a clause of the property: book, previous observation, the call, what fired *)
+Definition clause := rstate -> option obs -> step -> list (string * N) -> bool.
+Definition cl_once : clause := fun r _ _ f => spec_once (r_live r) f.
+Definition cl_handler : clause := fun r _ _ f => spec_handler (r_live r) f.
+Definition cl_sides : clause := fun r _ _ f => spec_sides (r_live r) f.
+Definition cl_builtin : clause := fun r _ _ f => spec_builtin (r_live r) f.
+Definition cl_replace : clause := fun _ prev s f => spec_replace prev s f.
+Definition cl_and (p q : clause) : clause := fun r prev s f => p r prev s f && q r prev s f.
+Definition spec_ok : clause := cl_and cl_once (cl_and cl_handler (cl_and cl_sides (cl_and cl_builtin cl_replace))).
 
-(* one step: "either an error is returned, or ..." ; a dead process is neither *)
-Definition spec_step (r : rstate) (prev : option obs) (s : step) (o : obs) : bool :=
+(* one step: "either an error is returned, or ..." ; a dead process is neither ([crash_ok] = false).
+   Out of the domain nothing is judged. *)
+Definition judge_step (q : clause) (crash_ok : bool) (r : rstate) (prev : option obs) (s : step) (o : obs) : bool :=
   negb (r_dom r) ||
   match o with
-  | OCrash => false
+  | OCrash => crash_ok
   | OErr _ _ => true
-  | OOk f => spec_ok r prev s f
+  | OOk f => q r prev s f
   end.
 
 (* [skip] leading steps have no recorded observation: the book is kept, nothing is judged *)
-Fixpoint spec_from (r : rstate) (i : N) (prev : option obs) (skip : nat) (h : list step) (os : list obs) : bool :=
+Fixpoint judge (q : clause) (crash_ok : bool) (r : rstate) (i : N) (prev : option obs) (skip : nat)
+         (h : list step) (os : list obs) : bool :=
   match h with
   | [] => true
   | s :: h' =>
     let r' := ref_apply r i s in
     match skip with
-    | S k => spec_from r' (N.succ i) None k h' os
+    | S k => judge q crash_ok r' (N.succ i) None k h' os
     | O => match os with
            | [] => true
-           | o :: os' => spec_step r' prev s o && spec_from r' (N.succ i) (Some o) O h' os'
+           | o :: os' => judge_step q crash_ok r' prev s o && judge q crash_ok r' (N.succ i) (Some o) O h' os'
            end
     end
   end.
+Definition spec_from := judge spec_ok false.
 
 (* every step was answered, unless the process died *)
 Definition complete (skip : nat) (h : list step) (os : list obs) : bool :=
